@@ -186,7 +186,9 @@ def run_conc_check(pid, tier, seed, wd):
     tv = validate_file("Trace", tcfg, all_tr, pid + "_conc", nshards=14, boundary='"ev":"quiesce"', timeout=3000)
     if tv["errors"]:
         raise ToolError("concurrent trace validation incomplete: " + "; ".join(tv["errors"][:3]))
-    mine = sorted(set(l for (i, l) in tv["fails"] if i == pid))
+    # C18 also says "each call still returns": a real deadlock / hang violates it as well
+    ids = {pid} | ({"C17"} if pid == "C18" else set())
+    mine = sorted(set(l for (i, l) in tv["fails"] if i in ids))
     lines = None
     for ln in mine[:8]:
         if lines is None:
@@ -212,6 +214,9 @@ def run_conc_check(pid, tier, seed, wd):
         raise ToolError("scheduler reported a deadlock that TLC does not accept as genuine (lines %s)" % bogus[:3])
     log("[%s] TLC judged %d records of concurrent sections and probes: failures of %s: %d" %
         (pid, tv["lines"], pid, len(mine)))
+    conf = {}
+    if pid in ("C17", "C18"):
+        conf = lock_protocol_conformance(pid, tier, wd, all_tr, drift)
     with open(all_tr) as f:
         first = f.readline()
     s0 = json.loads(first) if first.strip() else {}
@@ -225,5 +230,72 @@ def run_conc_check(pid, tier, seed, wd):
            "explanation": "schedules of the real code enumerated depth-first (preemption bound 2) and at random under a "
                           "cooperative scheduler that makes every lock acquisition a scheduling point; states = distinct "
                           "outcomes logged and judged by TLC, transitions = schedules executed",
-           "details": {"totals": tot, "records_validated": tv["lines"]}, "spec_drift": drift}
+           "details": {"totals": tot, "records_validated": tv["lines"], "lock_protocol": conf}, "spec_drift": drift}
+    if conf:
+        cov["states"] += conf["mc"]["states"]
+        cov["transitions"] += conf["mc"]["transitions"]
     return violations, drift, cov, time.time() - t0
+
+
+ELIGIBLE_POL = ("fifo", "lru", "lfu")
+
+
+def lock_protocol_conformance(pid, tier, wd, all_tr, drift):
+    """(1) TLC proves deadlock freedom / quiescent consistency / value correctness on Conc.tla for every
+    2-thread program of the bound; (2) every recorded schedule of an eligible fixture is replayed grant by
+    grant in Conc.tla (ConcTrace.tla): same lock requested, same final state, same results."""
+    thorough = tier == "thorough"
+    mc_cfg = os.path.join(wd, "ConcMC.cfg")
+    consts = {"Quirks": set(), "CQuirks": set(), "Flavs": {"sync", "async"},
+              "Pols": {"lru", "lfu"} if thorough else {"lru"}, "Limits": {1, 2} if thorough else {1},
+              "Ttls": {0, 2} if thorough else {2}, "MaxOps": 2, "NThreads": 2}
+    write_cfg(mc_cfg, "Spec", consts, invariants=["NoDeadlock", "QuiescentConsistent", "ValuesCorrect"])
+    r = tlc_mc("ConcMC", mc_cfg, pid + "_concmc", workers=12, timeout=3000)
+    if not r["ok"]:
+        raise ToolError("TLC did not prove NoDeadlock / QuiescentConsistent / ValuesCorrect on Conc.tla:\n" +
+                        ("\n".join(r["errors"][:4]) or r["out"][-2000:]))
+    log("[%s] TLC proved NoDeadlock, QuiescentConsistent, ValuesCorrect on Conc.tla: %d states / %d transitions (%.0fs)" %
+        (pid, r["distinct"], r["generated"], r["wall_s"]))
+    # non-vacuity: the as-found protocols must be refuted
+    refuted = []
+    if thorough or pid == "C17":
+        for q, inv in (("cond_callback_lock_inversion", "NoDeadlock"), ("clear_not_atomic", "QuiescentConsistent"),
+                       ("async_expiry_not_atomic", "QuiescentConsistent")):
+            c2 = dict(consts, CQuirks={q}, Ttls={2}, Pols={"lru"}, Limits={1})
+            cfg2 = os.path.join(wd, "ConcMC_%s.cfg" % q)
+            write_cfg(cfg2, "Spec", c2, invariants=[inv])
+            r2 = tlc_mc("ConcMC", cfg2, pid + "_concmc_" + q, workers=12, timeout=1200)
+            if r2["ok"] or not any(inv in e for e in r2["errors"]):
+                raise ToolError("self-test: Conc.tla with quirk %s does not violate %s" % (q, inv))
+            refuted.append(q)
+    # conformance of recorded schedules
+    sel = os.path.join(wd, "conc_conf.ndjson")
+    n = 0
+    with open(all_tr) as f, open(sel, "w") as g:
+        for line in f:
+            if '"ev":"quiesce"' not in line:
+                continue
+            rec = json.loads(line)
+            names = list(rec["cfgs"].keys())
+            if len(names) != 1:
+                continue
+            cfgd, meta = rec["cfgs"][names[0]], rec["metas"][names[0]]
+            if cfgd["policy"] not in ELIGIBLE_POL or cfgd["maxmem"] != 0 or meta["hasInv"] or rec.get("panic"):
+                continue
+            g.write(line)
+            n += 1
+    ccfg = os.path.join(wd, "ConcTrace.cfg")
+    write_cfg(ccfg, "CSpec", {"Quirks": set(), "CQuirks": set()}, invariants=["EndOK", "Done"])
+    tv = validate_file("ConcTrace", ccfg, sel, pid + "_conctrace", nshards=14, boundary=None, timeout=3000)
+    if tv["errors"]:
+        raise ToolError("lock-protocol conformance incomplete: " + "; ".join(tv["errors"][:3]))
+    nd = len(tv["drifts"])
+    if nd:
+        kinds = {}
+        for (i, l) in tv["drifts"]:
+            kinds[i] = kinds.get(i, 0) + 1
+        drift.append("SPEC-DRIFT %d of %d recorded schedules do not replay in Conc.tla (%s)" % (nd, n, kinds))
+    log("[%s] lock-protocol conformance: %d recorded schedules replayed grant by grant in Conc.tla, %d deviate" % (pid, n, nd))
+    return {"mc": {"states": r["distinct"], "transitions": r["generated"], "constants": {k: sorted(v) if isinstance(v, set) else v for k, v in consts.items()},
+                   "quirks_refuted": refuted},
+            "schedules_replayed": n, "deviating": nd}
